@@ -9,17 +9,19 @@ DRIVER = '''#include "ImathQuat.h"
 #include "ImathMatrix.h"
 using namespace IMATH_INTERNAL_NAMESPACE;
 typedef unsigned U;
-void use10 (Quat<U> &q, Vec3<U> &v, Matrix33<U> &m, Matrix44<U> &n) { v = q.rotateVector (v); v = v * q; m = q.toMatrix33 (); n = q.toMatrix44 (); q = q * q; q = ~q; v = v * m; m = m * m; }
+void use10 (Quat<U> &q, Vec3<U> &v, Matrix33<U> &m, Matrix44<U> &n) { v = q.rotateVector (v); v = v * q; m = q.toMatrix33 (); n = q.toMatrix44 (); q = q * q; q *= q; q = ~q; v = v * m; m = m * m; }
 '''
 U_ = "unsigned int"
 Q, V3, M3 = "Quat<%s>" % U_, "Vec3<%s>" % U_, "Matrix33<%s>" % U_
 ALIASES = {"rotateVector": "%s::rotateVector(const %s &) const" % (Q, V3), "vmulq": "operator*<%s>(const %s &, const %s &)" % (U_, V3, Q),
            "toMatrix33": "%s::toMatrix33() const" % Q, "toMatrix44": "%s::toMatrix44() const" % Q, "qmul": "operator*<%s>(const %s &, const %s &)" % (U_, Q, Q),
+           "qmuleq": "%s::operator*=(const %s &)" % (Q, Q),
            "conj": "operator~<%s>(const %s &)" % (U_, Q), "v3m33": "operator*<%s,%s>(const %s &, const %s &)" % (U_, U_, V3, M3),
            "mul33": "%s::operator*(const %s &) const" % (M3, M3)}
 EXTRACTION = {}
 UNITS = [("vq_matrix", "v*q == v*q.toMatrix33() for every quaternion"), ("rotateVector", "rotateVector(v) == v*q + (N-1)v: agreement at unit norm"),
          ("toMatrix_blocks", "toMatrix33 / toMatrix44 same block, affine border"), ("product_matrix", "K(q1*q2) == K(q2)*K(q1) with K = M + (N-1)I: products correspond"),
+         ("product_matrix_inplace", "the in-place spelling: after q1 *= q2 (q2 distinct or q1 itself), K(q1) == K(q2)*K(old q1)"),
          ("conjugate", "~q negates v only; q * ~q == (N,0,0,0)")]
 
 
